@@ -60,6 +60,8 @@ class Calendar:
             self.off.append(interval_of(s, e))
         for s, e in r.get("vacs", []):
             self.off.append(interval_of(s, e))
+        for s, mins in r.get("bookings", []):
+            self.off.append((s, s + timedelta(minutes=mins)))
         self._cache = {}
 
     def _local(self, t):
